@@ -759,7 +759,7 @@ def _dtype(p):
 
 
 # -------------------------------------------------------- C05 polynomial division
-class IterationCap(Exception):
+class IterationCap(BaseException):
     """Raised by the loop observer when poly_divmod exceeds the iteration cap."""
 
 
